@@ -156,6 +156,17 @@ def run_check(mod, tier, seed, jobs=None, time_cap=None):
           pool.terminate()
           break
   wall = time.time() - t0
+  # A work unit that crashes is reported as a violation of its own class: on
+  # the unchanged tree no unit crashes, so a crash means the code under test
+  # behaved in a way the harness considers impossible. The replay re-runs
+  # that unit.
+  for idx, err in harness_errors:
+    last = err.strip().splitlines()[-1] if err.strip() else 'unknown'
+    etype = last.split(':', 1)[0].split('.')[-1][:40]
+    total.violations.append({
+        'key': f'{prop}/check-crashed/{etype}',
+        'what': f'work unit {idx} ({units[idx]!r}) crashed:\n{err[-1500:]}',
+        'case': {'unit_index': idx, 'tier': tier, 'seed': seed}})
   if capped:
     total.caps.append(
         f'time cap {time_cap}s hit after {done}/{n_units} work units')
@@ -207,8 +218,6 @@ def run_check(mod, tier, seed, jobs=None, time_cap=None):
     exit_code = 1
   for idx, err in harness_errors[:5]:
     print(f'HARNESS-ERROR property={prop} unit={idx}\n{err}', file=sys.stderr)
-  if harness_errors:
-    exit_code = 2
 
   exhaustive = not capped and not harness_errors and not total.caps
   coverage = {
@@ -261,7 +270,12 @@ def run_replay(mod, path):
     doc = json.load(f)
   print(f'replaying {doc["property"]} key={doc["key"]}')
   print(f'recorded: {doc["what"]}')
-  r = mod.replay(doc['case'])
+  if isinstance(doc['case'], dict) and 'unit_index' in doc['case']:
+    c = doc['case']
+    units = list(mod.units(c['tier'], c['seed']))
+    r = mod.run_unit(units[c['unit_index']], c['tier'], c['seed'])
+  else:
+    r = mod.replay(doc['case'])
   if r.violations:
     for v in r.violations:
       print(f'REPRODUCED key={v["key"]}\n  {v["what"]}')
